@@ -234,16 +234,21 @@ theorem get_updateOutput_frame (scope : Str) (m : Vars) (out : Option Str) (v : 
     | none => simp [Vars.updateOutput, get_erase, hne]
 
 theorem evalInstructions_frame {σ : Type} {scope : Str} {sem : CmdSem σ} {is : List Instruction}
-    (hsem : SemFrame scope sem) (hout : OutputsUnder scope is) :
-    ∀ (fuel line : Nat) (fo : Option Str) (vars : Vars) (s : σ) (res : BodyResult × Vars × σ),
-      evalInstructions sem is fuel line fo vars s = some res →
+    (halt : Nat → Bool) (hsem : SemFrame scope sem) (hout : OutputsUnder scope is) :
+    ∀ (fuel line poll : Nat) (fo : Option Str) (vars : Vars) (s : σ) (res : BodyResult × Vars × σ),
+      evalInstructions sem halt is fuel line poll fo vars s = some res →
       ∀ k, underPrefix scope k = false → Vars.get res.2.1 k = Vars.get vars k := by
   intro fuel
   induction fuel with
-  | zero => intro line fo vars s res h; simp [evalInstructions] at h
+  | zero => intro line poll fo vars s res h; simp [evalInstructions] at h
   | succ fuel ih =>
-    intro line fo vars s res h k hk
+    intro line poll fo vars s res h k hk
     unfold evalInstructions at h
+    cases hh : halt poll with
+    | true => rw [hh] at h; simp only [if_true, Option.some.injEq] at h; subst h; rfl
+    | false =>
+    rw [hh] at h
+    simp only [Bool.false_eq_true, if_false] at h
     cases hl : is[line]? with
     | none => rw [hl] at h; simp only [Option.some.injEq] at h; subst h; rfl
     | some instr =>
@@ -252,8 +257,8 @@ theorem evalInstructions_frame {σ : Type} {scope : Str} {sem : CmdSem σ} {is :
       have hmem : instr ∈ is := List.mem_of_getElem? hl
       have hrun := runInstruction_frame hsem vars s instr line k hk
       cases hty : instr.ty with
-      | empty => rw [hty] at h; exact ih _ _ _ _ _ h k hk
-      | preProcess c a => rw [hty] at h; exact ih _ _ _ _ _ h k hk
+      | empty => rw [hty] at h; exact ih _ _ _ _ _ _ h k hk
+      | preProcess c a => rw [hty] at h; exact ih _ _ _ _ _ _ h k hk
       | script si =>
         rw [hty] at h
         simp only at h
@@ -265,11 +270,11 @@ theorem evalInstructions_frame {σ : Type} {scope : Str} {sem : CmdSem σ} {is :
           rw [hr] at h
           cases g with
           | label l => simp only [Option.some.injEq] at h; subst h; exact hrun
-          | line n => simp only at h; rw [ih _ _ _ _ _ h k hk]; exact hrun
+          | line n => simp only at h; rw [ih _ _ _ _ _ _ h k hk]; exact hrun
         | «continue» v =>
           rw [hr] at h
           simp only at h
-          rw [ih _ _ _ _ _ h k hk,
+          rw [ih _ _ _ _ _ _ h k hk,
             get_updateOutput_frame scope _ _ _ k (fun o ho => hout instr hmem si hty o ho) hk]
           exact hrun
 
